@@ -172,6 +172,9 @@ def _trun_body(c):
                       size < hot(buf).total_capacity.t, size <= cold(buf).total_capacity.t)
     return [('C08-due-while-completely-idle-starts-on-time', z3.Not(z3.And(st0 == RS('WAITING'), H0('est') <= s0.now, idle, feasible))),
             ('C08-no-admission-without-a-start', admitted(n) == admitted(s0)),
+            ('C13-actual-start-recorded-only-at-a-start', z3.And(
+                z3.Select(n.heap('Observation', 'ast'), ob.t) == z3.Select(s0.heap('Observation', 'ast'), ob.t),
+                z3.Select(n.heap('Observation', 'ast.none', B), ob.t) == z3.Select(s0.heap('Observation', 'ast.none', B), ob.t))),
             ('C08-status-changes-only-to-finished', z3.Or(st1 == st0, fin_now)),
             ('C13-finished-exactly-when-one-duration-has-elapsed-since-the-actual-start', z3.Implies(fin_now, z3.And(
                 z3.Not(z3.Select(s0.heap('Observation', 'ast.none', B), ob.t)), s0.now >= H0('ast') + H0('duration'),
